@@ -93,7 +93,7 @@ pub enum Op {
     SignRedundant(u64, C),
     MutualClose,
     CheckFuture(u64),
-    SignCp(u64, bool, C),
+    SignCp(u64, u8, C),
     SignCp1(u64, C),
     ValidateRev(u64, X),
 }
@@ -133,7 +133,7 @@ pub struct Ghost {
     /// holder commitment number -> entry point that first signed it
     pub signed: BTreeMap<u64, String>,
     /// cp commitment number -> (rogue point?, content)
-    pub cp_signed: BTreeMap<u64, (bool, C)>,
+    pub cp_signed: BTreeMap<u64, (u8, C)>,
     pub cp_revoked: BTreeSet<u64>,
     /// per cp commitment number: secrets accepted so far (for the naive reference store)
     pub cp_secrets: BTreeMap<u64, [u8; 32]>,
@@ -151,6 +151,17 @@ pub struct ChanState {
 
 pub struct ChanModel {
     pub cfg: ChanCfg,
+}
+
+/// index of the rogue point that point kind 2 uses for every commitment number
+const FIXED_POINT: u64 = 200;
+
+fn cp_point(cp: &Cp, kind: u8, n: u64) -> PublicKey {
+    match kind {
+        0 => cp.point(n),
+        1 => cp.rogue_point(n),
+        _ => cp.rogue_point(FIXED_POINT),
+    }
 }
 
 pub fn content(c: C, n: u64) -> Content {
@@ -537,7 +548,9 @@ impl Model for ChanModel {
                     if d >= 0 && !can_advance {
                         continue;
                     }
-                    for rogue in [false, true] {
+                    // point kinds: 0 = from the BOLT-3 tree, 1 = outside the tree (one per number),
+                    // 2 = outside the tree and the same for every number
+                    for rogue in [0u8, 1, 2] {
                         for c in [C::A, C::B, C::B2] {
                             v.push(Op::SignCp(n, rogue, c));
                         }
@@ -800,7 +813,7 @@ impl Model for ChanModel {
                 outcome_tag = r.tag();
             }
             Op::SignCp(n, rogue, c) => {
-                let point = if *rogue { s.cp.rogue_point(*n) } else { s.cp.point(*n) };
+                let point = cp_point(&s.cp, *rogue, *n);
                 let cont = content(*c, *n);
                 let m = msgs::SignRemoteCommitmentTx2 {
                     remote_per_commitment_point: PubKey(point.serialize()),
@@ -847,7 +860,7 @@ impl Model for ChanModel {
                 let r = s.w().chan_msg(DBID, Message::SignRemoteCommitmentTx(m));
                 outcome_tag = r.tag();
                 if let Outcome::Ok(Message::SignTxReply(rep)) = &r {
-                    self.cp_signed(s, *n, false, *c, &point, sig_from_wire(&rep.signature), op, vios);
+                    self.cp_signed(s, *n, 0, *c, &point, sig_from_wire(&rep.signature), op, vios);
                 }
             }
             Op::ValidateRev(n, x) => {
@@ -855,7 +868,8 @@ impl Model for ChanModel {
                 let signed = s.ghost.cp_signed.get(&n).cloned();
                 let secret = match x {
                     X::Matching => match signed {
-                        Some((true, _)) => s.cp.rogue_secret(n),
+                        Some((1, _)) => s.cp.rogue_secret(n),
+                        Some((2, _)) => s.cp.rogue_secret(FIXED_POINT),
                         _ => s.cp.secret(n),
                     },
                     X::TreeAlthoughRogue => s.cp.secret(n),
@@ -896,7 +910,7 @@ impl ChanModel {
         &self,
         s: &mut ChanState,
         n: u64,
-        rogue: bool,
+        rogue: u8,
         c: C,
         point: &PublicKey,
         sig: Option<lightning_signer::bitcoin::secp256k1::ecdsa::Signature>,
@@ -955,8 +969,7 @@ impl ChanModel {
         let kind = op.kind();
         let supplied = PublicKey::from_secret_key(&secp(), secret);
         let expected = match s.ghost.cp_signed.get(&n) {
-            Some((true, _)) => Some(s.cp.rogue_point(n)),
-            Some((false, _)) => Some(s.cp.point(n)),
+            Some((k, _)) => Some(cp_point(&s.cp, *k, n)),
             None => None,
         };
         match expected {
